@@ -253,14 +253,29 @@ theorem dual_involution {s : HG} (h : WF s) (ha : AttrWF s) :
   · intro e he
     rw [d2.eattr e ((d1.nodes e).2 he)]; exact d1.nattr e he
 
-/-- the wording of the statement: on networks without isolated nodes or empty edges -/
+/-- the wording of the statement: the networks without isolated nodes and without empty edges form a class that
+    the dual maps into itself (an isolated node would become an empty edge and vice versa — here there are none,
+    on either side), and on that class `dual ∘ dual` gives back the nodes, edges and members of `H`
+    (a corollary of `dual_spec` and of the stronger `dual_involution`, which needs neither hypothesis) -/
 theorem dual_involution_no_isolates_no_empty {s : HG} (h : WF s) (ha : AttrWF s)
-    (_hiso : ∀ n ∈ s.nodes, s.memb n ≠ []) (_hemp : ∀ e ∈ s.edges, s.mem e ≠ []) :
+    (hiso : ∀ n ∈ s.nodes, s.memb n ≠ []) (hemp : ∀ e ∈ s.edges, s.mem e ≠ []) :
+    (∀ e ∈ (dual s).1.edges, (dual s).1.mem e ≠ []) ∧
+    (∀ n ∈ (dual s).1.nodes, (dual s).1.memb n ≠ []) ∧
     (∀ n, n ∈ (dual (dual s).1).1.nodes ↔ n ∈ s.nodes) ∧
     (∀ e, e ∈ (dual (dual s).1).1.edges ↔ e ∈ s.edges) ∧
-    (∀ e ∈ s.edges, ∀ n, n ∈ (dual (dual s).1).1.mem e ↔ n ∈ s.mem e) :=
-  let r := dual_involution h ha
-  ⟨r.2.1, r.2.2.1, r.2.2.2.1⟩
+    (∀ e ∈ s.edges, ∀ n, n ∈ (dual (dual s).1).1.mem e ↔ n ∈ s.mem e) := by
+  obtain ⟨_, d1⟩ := dual_spec h ha
+  have r := dual_involution h ha
+  refine ⟨?_, ?_, r.2.1, r.2.2.1, r.2.2.2.1⟩
+  · intro e he
+    rw [d1.edges] at he
+    rw [d1.mem e he]; exact hiso e he
+  · intro n hn
+    have hn' := (d1.nodes n).1 hn
+    obtain ⟨x, hx⟩ := List.exists_mem_of_ne_nil _ (hemp n hn')
+    intro hnil
+    have := (d1.memb n hn' x).2 hx
+    rw [hnil] at this; cases this
 
 /-! ### `<<` -/
 
@@ -1230,14 +1245,13 @@ theorem cleanup_exact_singletons_isolates {s : HG} (hs : Live s) (r : HG × Outc
     rw [hs']; exact (stageS_spec hs).2.2.2.1.nodes
   rw [hn]
 
-/-- the connected step of this file is the shared model's `HG.lccInPlace` (which, since the repair
-    `max(..., default=set())` was applied to /repo, no longer raises on the null network) -/
-theorem lccInPlace'_eq (t : HG) : lccInPlace' t = lccInPlace t := rfl
-
-theorem lccInPlace_null {t : HG} (hc : largestComponent t = none) :
-    lccInPlace t = lccInPlace' t ∧ (t.frozen = false → lccInPlace' t = (t, .ok)) := by
-  refine ⟨rfl, ?_⟩
-  intro hf
+/-- the connected step on the null network (no node, hence no component): since the repair
+    `max(..., default=set())` was applied to /repo (4b127bb) the shared model's `HG.lccInPlace` — which this
+    file's `lccInPlace'` is, definitionally (`lccInPlace'_eq` in C19/Lemmas7.lean) — returns the network
+    unchanged instead of raising `ValueError` -/
+theorem lccInPlace_null {t : HG} (hc : largestComponent t = none) (hf : t.frozen = false) :
+    lccInPlace t = (t, .ok) := by
+  show lccInPlace' t = (t, .ok)
   unfold lccInPlace' largestOrEmpty; rw [hc]
   simp only [Option.getD_none, List.not_mem_nil, not_false_eq_true, decide_true]
   rw [guardF_live _ _ hf]
